@@ -135,6 +135,19 @@ impl Monitor for C11 {
                 }
             }
             // empty lists and failing arguments
+            // many aggregate calls in one input: nested in one another, chained, as members of a list
+            for (fam, k, s) in repetitions(ev, rep_cap(&ctx.config)) {
+                if names.iter().any(|n| s.contains(n)) && ctx.mine() {
+                    ctx.check(&Case::new(ev, "value", &s, z).with_extra(&format!("{} x{}", fam, k)), &|c, st| {
+                        let v = self.judge(c, st);
+                        if let Verdict::Pass { .. } = v {
+                            st.inc("repetitions_confirmed");
+                            st.max("max_aggregate_calls_in_one_input", k as f64);
+                        }
+                        v
+                    });
+                }
+            }
             for name in &names {
                 if ctx.mine() {
                     ctx.check(&Case::new(ev, "empty", &format!("{}()", name), z), &|c, st| self.judge(c, st));
